@@ -1,11 +1,13 @@
 import Driver.Codec
 import Driver.Attrs
 import Driver.AgentD
+import Driver.HmacD
 open Stun.Driver
 
 structure DState where
   codec : CState := {}
   agent : Stun.Agent := {}
+  hm : HState := {}
 
 def step (s : DState) (line : String) : DState × String :=
   let toks := (line.splitOn " ").filter (· ≠ "")
@@ -21,6 +23,9 @@ def step (s : DState) (line : String) : DState × String :=
     | none =>
     match stepAgent s.agent toks with
     | some (a, out) => ({ s with agent := a }, out)
+    | none =>
+    match stepHmac s.hm toks with
+    | some (h, out) => ({ s with hm := h }, out)
     | none => (s, "bad-op")
 
 partial def loop (hin hout : IO.FS.Stream) (s : DState) : IO Unit := do
